@@ -40,6 +40,20 @@ mod vk_counter {
         kani::cover!(op == 2, "load");
     }
 
+    // @harness name=counter_clone_atomic props=C19,C07 kind=complete
+    #[kani::proof]
+    #[kani::stub(std::sync::atomic::Atomic::<usize>::fetch_add, a_faa)]
+    #[kani::stub(std::sync::atomic::Atomic::<usize>::load, a_load)]
+    #[kani::stub(std::sync::atomic::Atomic::<usize>::store, a_store)]
+    fn counter_clone_atomic() {
+        let c = AtomicCounter::new();
+        let mut e = c.clone();
+        let s = st();
+        kani::cover!(s.n == 1, "one atomic operation");
+        assert!(s.n == 1 && s.log[0].kind == 2, "[C19 C07 ctr-clone-atomic] cloning a counter reads it with exactly one atomic load (other threads may be pulling from the original)");
+        assert!(*e.current.get_mut() == s.log[0].ret, "[C19 ctr-clone] a cloned counter starts at the value that load returned");
+    }
+
     // @harness name=counter_new_clone props=C19,C04 kind=complete
     #[kani::proof]
     fn counter_new_clone() {
